@@ -247,9 +247,16 @@ def revise_resources(
     # - the webhook resources are PASSIVELY matched per HTTP request, so ambiguity is not a problem.
     # Ambiguity is a potential problem only for regular resource handlers because the operators
     # ACTIVELY trigger them and produce irreversible side-effects --- even if improperly configured.
-    _update_resources(insights.webhook_resources, webhook_selectors, group=group, source=resources)
-    _update_resources(insights.indexed_resources, indexed_selectors, group=group, source=resources)
-    _update_resources(insights.watched_resources, watched_selectors, group=group, source=resources)
+    # Remember all resources ever discovered: the priority of core v1 and the ambiguity are judged
+    # across the API groups, so a re-scan of one group is revised together with all other groups
+    # (otherwise, it depends on the order of discovery which resources are served and which are not).
+    discovered = insights.discovered_resources
+    discovered.difference_update({resource for resource in discovered if group in [None, resource.group]})
+    discovered.difference_update(resources)
+    discovered.update(resources)
+    _update_resources(insights.webhook_resources, webhook_selectors, source=discovered)
+    _update_resources(insights.indexed_resources, indexed_selectors, source=discovered)
+    _update_resources(insights.watched_resources, watched_selectors, source=discovered)
     _disable_ambiguous_selectors(resources=insights.watched_resources, selectors=watched_selectors)
     _disable_mismatched_selectors(resources=insights.watched_resources, selectors=watched_selectors)
     _disable_unsuitable_resources(resources=insights.watched_resources, selectors=patched_selectors)
@@ -259,11 +266,10 @@ def _update_resources(
         resources: set[references.Resource],
         selectors: Iterable[references.Selector],
         *,
-        group: str | None,
         source: Collection[references.Resource],
 ) -> None:
     """
-    Update all or the group's resources from the source of resources.
+    Update the served resources from all the resources discovered so far.
 
     This also excludes the resources that continue to exist but stop matching
     the selectors: e.g. by category --- if a CRD's categories were modified.
@@ -272,12 +278,7 @@ def _update_resources(
     so it can be so that we miss the CRD deletion event and continue
     the watching attempts (and fail with HTTP 404).
     """
-
-    # Exclude previously served resources that are gone now.
-    group_resources = {resource for resource in resources if group in [None, resource.group]}
-    resources.difference_update(group_resources)
-
-    # Include or re-include the resources that are [still] served.
+    resources.clear()
     for selector in selectors:
         resources.update(selector.select(source))
 
